@@ -176,7 +176,7 @@ def run(tier, replay):
         f_side = ex.submit(lane_spaces, jb, limit, side_spaces, 1, "x")
 
         def lane2():
-            small = run_tlc("MC_Json8259.tla", "MC_Json8259_small.cfg", D, workers=1, coverage=True, timeout=900, work_id="c13c")
+            small = run_tlc("MC_Json8259.tla", "MC_Json8259_small.cfg", D, workers=1, timeout=900, work_id="c13c")
             sens = lane_sens(SENS)
             dv = trace_validate(docs_path, wid="c13d")
             sv = trace_validate(ser_path, wid="c13e")
@@ -187,9 +187,13 @@ def run(tier, replay):
         main = f_main.result()
 
     # 1. model checking results
-    ctx.add_tlc("small space, each invariant separately, with coverage", small)
+    # Vacuity guard.  `-coverage 1` is not usable on this module: TLC's cost model inlines every operator
+    # application and on the mutually recursive descent operators that takes minutes and > 4 GB even for 343
+    # states.  Instead: every space must have exactly sum(|Alphabet|^k) states (the single action Extend was
+    # taken for every token at every length), the harness must have enumerated the same number, the accepted
+    # set must be non-empty with depths on both sides of a probed limit, and all 11 sensitivity configs must fail.
+    ctx.add_tlc("small space, each invariant separately", small)
     ctx.require_tlc_ok("MC_Json8259_small", small)
-    ctx.require_cover("MC_Json8259_small", small, ["Init", "Extend"])
     for cfg, dev, r in sens:
         ctx.add_tlc("sensitivity: Dev={%s} must violate" % dev, r)
         if r.violation != "invariant":
@@ -209,6 +213,9 @@ def run(tier, replay):
         if s["strings"] != r.distinct:
             raise ToolError("%s: harness enumerated %d strings, TLC %d states" % (cfg, s["strings"], r.distinct))
         depths = sorted(set(x["d"] for x in r.prints if isinstance(x, dict) and "d" in x))
+        na = len(s["alphabet"])
+        if r.distinct != sum(na ** k for k in range(s["maxlen"] + 1)):
+            raise ToolError("vacuity guard: %s explored %d states, expected %d" % (cfg, r.distinct, sum(na ** k for k in range(s["maxlen"] + 1))))
         acc_total += acc
         ctx.cov["evaluations"] += s["evaluations"]
         ctx.cov["distinct_nontrivial"] += s["nontrivial"]
